@@ -156,6 +156,18 @@ def _check_misc(fails):
       if abs(keep.mean() - (1 - rate)) > 0.05:
         fails.append(dict(inputs=cfg, observed=f'keep fraction {keep.mean():.3f} far from 1-rate', violated='dropout'))
         return n
+  # broadcast_dims: the mask is shared along the named axes, however they are spelled
+  x3 = jnp.asarray(rng.randn(4, 5, 6).astype(np.float32)) + 3.0
+  for dims in ((1,), (-2,), (0, 2), (-3, -1), (2,), (-1,)):
+    n += 1
+    y3 = np.asarray(nn.Dropout(rate=0.5, deterministic=False, broadcast_dims=dims).apply({}, x3, rngs={'dropout': jax.random.key(3)}))
+    keep3 = y3 != 0
+    pos = tuple(d % 3 for d in dims)
+    shared = all(np.all(keep3 == np.take(keep3, [0], axis=a)) for a in pos)
+    ref = np.asarray(nn.Dropout(rate=0.5, deterministic=False, broadcast_dims=pos).apply({}, x3, rngs={'dropout': jax.random.key(3)})) != 0
+    if not shared or not np.array_equal(keep3, ref):
+      fails.append(dict(inputs=dict(layer='linen.Dropout', broadcast_dims=list(dims)), observed='the mask is not shared along the broadcast dims (or differs from the same dims spelled non-negatively)', violated='dropout'))
+      return n
   dd = nn.Dropout(rate=0.5, deterministic=True)
   n += 1
   if not np.array_equal(np.asarray(dd.apply({}, big)), np.asarray(big)):
